@@ -57,7 +57,7 @@ class World:
         self.started = False
         self.torn_down = False
         self._source, self._post = None, []
-        self.zombies = set()      # connections whose connect failed: stay in server.py's `transports` for good
+        self.zombies = set()      # connections whose connect failed: in server.py's `transports` until the open_connection task has ended
 
     # ---- labels -------------------------------------------------------------------------------
     def label(self, conn):
@@ -157,7 +157,8 @@ class World:
     def _command(self, c):
         if isinstance(c, commands.OpenConnection):
             # server.py: `assert command.connection not in self.transports`; a connection whose connect attempt failed
-            # is never removed from `transports` there (zombie entry without reader/writer)
+            # stays in `transports` (zombie entry without reader/writer) until its task has ended, i.e. while the
+            # layer handles the OpenConnectionCompleted event
             assert c.connection not in self.transports and c.connection not in self.zombies, \
                 "server.py: OpenConnection for a connection that is still in transports"
             self.label(c.connection)
@@ -219,6 +220,7 @@ class World:
         if not conn.address:
             self.zombies.add(conn)
             self._handle(events.OpenConnectionCompleted(cmd, "Cannot open connection, no hostname given."))
+            self.zombies.discard(conn)      # server.py release_transport: the entry goes when the task has ended
             return
         data = server_hooks.ServerConnectionHookData(client=self.ctx.client, server=conn)
         self._server_hook(server_hooks.ServerConnectHook(data))
@@ -226,6 +228,7 @@ class World:
             self.zombies.add(conn)
             self._server_hook(server_hooks.ServerConnectErrorHook(data))
             self._handle(events.OpenConnectionCompleted(cmd, f"Connection killed: {conn.error}"))
+            self.zombies.discard(conn)
             return
         r = self.on_connect(self, cmd)
         if r == "defer":
@@ -241,6 +244,7 @@ class World:
             self.zombies.add(conn)
             self._server_hook(server_hooks.ServerConnectErrorHook(data))
             self._handle(events.OpenConnectionCompleted(cmd, err))
+            self.zombies.discard(conn)
         else:
             conn.timestamp_start = 1.0
             if conn.transport_protocol == "tcp": conn.timestamp_tcp_setup = 1.0
